@@ -151,6 +151,20 @@ func castingFamily(r *hx.Rng, report func(sc *Scenario, res map[string]int)) int
 		for _, h := range order {
 			sc.Txs = append(sc.Txs, byHash[h])
 		}
+		// documented quirk (Props/C01E.cast_unsorted_counterexample): the proposer does not sort; handed the
+		// list in another order than the verifier's it may disagree with the verifier of its own block
+		if len(order) >= 2 {
+			rev := *sc
+			rev.Txs = nil
+			for i := len(sc.Txs) - 1; i >= 0; i-- {
+				rev.Txs = append(rev.Txs, sc.Txs[i])
+			}
+			evmStats["cast-unsorted-runs"]++
+			if len(castOnce(&rev, len(order)+5)) > 1 {
+				evmStats["cast-unsorted-disagree"]++
+			}
+			evals += 2
+		}
 		for cut := 2; cut <= len(order) && cut <= 8; cut++ {
 			c := *sc
 			c.CastCut = cut
